@@ -445,3 +445,39 @@ def r7_let_else_continue(text):
         text = text[:mo.start()] + 'if let %s = %s {%s}\n' % (text[mo.start(1):mo.end(1)], text[mo.start(2):mo.end(2)], rest) + text[k:]
         fired += 1
     return text, fired
+
+
+def r7_while_block_cond(text):
+    """R7f: `while { S; C } { B }` (a block as the loop condition: a do-while in disguise) is emitted as
+    `loop { S; if !(C) { break; } B }` - the same evaluation order; the verifier needs the condition's statements
+    inside the loop body to state invariants about them."""
+    fired = 0
+    while True:
+        m = mask(text)
+        mo = re.search(r'\bwhile\s*\{', m)
+        if not mo:
+            break
+        co = mo.end() - 1
+        cc = match_close(m, co)
+        k = cc + 1
+        while k < len(m) and m[k] in ' \t\n':
+            k += 1
+        if k >= len(m) or m[k] != '{':
+            raise AnchorLost('r7_while_block_cond: no loop body after block condition')
+        bo, bc = k, match_close(m, k)
+        cond_block, cond_m = text[co + 1:cc], m[co + 1:cc]
+        # the block's value is what follows its last top-level `;`
+        depth, last_semi = 0, -1
+        for i, ch in enumerate(cond_m):
+            if ch in '([{':
+                depth += 1
+            elif ch in ')]}':
+                depth -= 1
+            elif ch == ';' and depth == 0:
+                last_semi = i
+        stmts, value = cond_block[:last_semi + 1], cond_block[last_semi + 1:].strip()
+        if not value:
+            raise AnchorLost('r7_while_block_cond: block condition has no value')
+        text = text[:mo.start()] + 'loop {' + stmts + '\n if !(' + value + ') { break; }' + text[bo + 1:bc] + '}' + text[bc + 1:]
+        fired += 1
+    return text, fired
